@@ -3405,7 +3405,7 @@ def _coerce_to_keyword(
                               lineno=arg_.lineno, col_offset=arg_.col_offset, end_lineno=end_ln + 1,
                               end_col_offset=code._lines[end_ln].c2b(end_col))
 
-            defaults.clear()  # misc, so doesn't get unmade and remade, safe to do because no FST ops follow
+                defaults.clear()  # misc, so doesn't get unmade and remade, safe to do because no FST ops follow, only for FST because an AST passed in is not ours to modify
 
     elif codea_cls is TypeVar:  # from `name=default_value`
         if codea.bound:
